@@ -344,6 +344,9 @@ func vfC06Scenarios(thorough bool) []*vfGWScenario {
 		append([]string{"graft:a:t", "graft:e:t", "prune:b:t", "idw:a:m1", "idw:b:m3", "score:c:-3", "score:c:-2", "score:a:-3", "unsub:b:t", "sub:b:t", "leave:t", "hb"}, pubs...))
 	mk("gs-fanout", "gossip", peers, false, connSub(peers, "abce"),
 		append([]string{"sub:d:t", "score:a:-3", "score:a:-2", "score:b:-3", "unsub:a:t", "sub:a:t", "hb", "adv:3500", "adv:2000", "join:t", "relay:t", "idw:a:m1", "lpub:t:p5"}, pubs...))
+	// (which candidates refill the fanout at a heartbeat is the explorer's choice too: an eligible member that was
+	// wrongly evicted is otherwise drawn again at once and the eviction stays invisible)
+	out[len(out)-1].DevEvents = []string{"lpub", "pub", "join", "hb"}
 	// batch publication (AddToBatch + PublishBatch), joined and through the fanout
 	mk("gs-batch", "gossip", peers, false, connSub(peers, "abcde"),
 		[]string{"join:t", "leave:t", "graft:a:t", "prune:b:t", "score:c:-3", "idw:a:m1", "hb", "lpubbatch:t:p3", "lpubbatch:t:p4:local", "lpubbatch:t:p6", "lpub:t:p1"})
